@@ -7,7 +7,7 @@
   REGENERATED from /repo/src/cmb_random.c on every run (Generated/Rng.lean); `Spec.*` is written from the published
   algorithms (Rng/Spec.lean).
 -/
-import CimbaModel.Rng.Bridge
+import CimbaModel.Rng.Lemmas
 
 namespace CimbaModel.Props.C15
 open CimbaModel.Generated CimbaModel.Rng
@@ -149,10 +149,10 @@ example : ∃ s₁ s₂ : RngState, runCalls s₁ [.flip] ≠ runCalls s₂ [.fl
 
 /- the model computes the values the library returns (seed 42: first raw output, then ten coin flips — the same values as
    in corpus/rng/flip-cache-survives-reseed.txt, run 0) -/
-example : runCalls (cmb_random_initialize 42 RngState.init) [.raw] = [.word 0x13554e33b8870be2] := by decide
+example : runCalls (cmb_random_initialize 42 RngState.init) [.raw] = [.word 0x13554e33b8870be2] := by decide +kernel
 example : runCalls (cmb_random_initialize 42 RngState.init) (List.replicate 10 .flip) =
     [0, 0, 0, 1, 0, 0, 1, 1, 0, 1].map .int := by decide +kernel
-example : Spec.stream 42 2 = [0x13554e33b8870be2, 0xf42f8984b34064e0] := by decide
+example : Spec.stream 42 2 = [0x13554e33b8870be2, 0xf42f8984b34064e0] := by decide +kernel
 
 /- an instance of `reseed_forgets` with a partially consumed cache on one side -/
 example : runCalls (cmb_random_initialize 42 (afterCalls RngState.init [.flip, .flip, .flip])) [.flip, .raw] =
